@@ -128,7 +128,10 @@ Definition start (p : list act) : thread := mkT [] false p.
 Inductive point :=
 | POpenDescLock | POpenDescRLock | POpenNodeRLock | PSizeNodeRLock | PGetNodeRLock
 | PModeNodeRLock | PModTimeNodeRLock | PSetNodeDataLock
-| PFdWrite | PFdRead | PFdClose | PFdFlush | PFdTruncate | PFlushUpNodeLock.
+| PFdWrite | PFdRead | PFdClose | PFdFlush | PFdTruncate | PFlushUpNodeLock
+| PGetNodeRLockOpt      (* model only: a File.GetNode:nodeLock.RLock that is passed iff the file is in the directory's cache *)
+| PDirGetNode           (* Directory.getNode:lock.Lock      — only with the optional hook fixes/hook-C20-dir.patch *)
+| PDirLocalUpdate.      (* Directory.localUpdate:lock.Lock  — only with the optional hook fixes/hook-C20-dir.patch *)
 
 Definition point_eqb (a b : point) : bool :=
   match a, b with
@@ -136,7 +139,8 @@ Definition point_eqb (a b : point) : bool :=
   | PSizeNodeRLock, PSizeNodeRLock | PGetNodeRLock, PGetNodeRLock | PModeNodeRLock, PModeNodeRLock
   | PModTimeNodeRLock, PModTimeNodeRLock | PSetNodeDataLock, PSetNodeDataLock | PFdWrite, PFdWrite
   | PFdRead, PFdRead | PFdClose, PFdClose | PFdFlush, PFdFlush | PFdTruncate, PFdTruncate
-  | PFlushUpNodeLock, PFlushUpNodeLock => true
+  | PFlushUpNodeLock, PFlushUpNodeLock | PGetNodeRLockOpt, PGetNodeRLockOpt
+  | PDirGetNode, PDirGetNode | PDirLocalUpdate, PDirLocalUpdate => true
   | _, _ => false
   end.
 
@@ -154,7 +158,11 @@ Definition p_lookup (f : nat) : list pact :=
   flat_map (fun d => [(ALock (LDir d), None); (AUnlock (LDir d), None)]) (seqn (S (fdepth f))).
 (** updateChildEntry: localUpdate on the parent, then on its parent, ... up to the root *)
 Definition p_propagate (f : nat) : list pact :=
-  flat_map (fun d => [(ALock (LDir d), None); (AUnlock (LDir d), None)]) (rev (seqn (S (fdepth f)))).
+  flat_map (fun d => [(ALock (LDir d), Some PDirLocalUpdate); (AUnlock (LDir d), None)]) (rev (seqn (S (fdepth f)))).
+(** Directory.getNode on /d: lock it, cacheSync re-links its (only possible) cached child, file 0 *)
+Definition p_dirgetnode : list pact :=
+  [(ALock (LDir 1), Some PDirGetNode); (ARLock (LNode 0), Some PGetNodeRLockOpt); (ARUnlock (LNode 0), None);
+   (AUnlock (LDir 1), None)].
 (** flushUp on a fresh or dirty descriptor *)
 Definition p_flushup (f : nat) (sync : bool) : list pact :=
   [(ALock (LNode f), Some PFlushUpNodeLock); (AUnlock (LNode f), None)] ++ (if sync then p_propagate f else []).
@@ -170,7 +178,9 @@ Inductive op :=
 | OTouch (f : nat)                 (* mfs.Touch *)
 | OSize (f : nat)                  (* Lookup; File.Size *)
 | OFlushFile (f : nat)             (* Lookup; File.Flush *)
-| OListD.                          (* Lookup /d; List (ForEachEntry over its one entry, file 0) *)
+| OListD                           (* Lookup /d; List (ForEachEntry over its one entry, file 0) *)
+| OFlushDir                        (* Lookup /d; Directory.Flush: getNode(clean) then parent.updateChildEntry *)
+| OFlushPathD.                     (* mfs.FlushPath(/d): Directory.Flush, WaitPub, Directory.GetNode *)
 
 (** [reentrant] = the defect switch: File.Mode/ModTime take nodeLock.RLock and then call
     GetNode, which takes it again *)
@@ -211,6 +221,12 @@ Definition p_op (reentrant : bool) (t : nat) (o : op) : list pact :=
   | OListD =>
       [(ALock (LDir 0), None); (AUnlock (LDir 0), None); (ALock (LDir 1), None)] ++
       p_getnode 0 ++ [(ARLock (LNode 0), Some PSizeNodeRLock); (ARUnlock (LNode 0), None); (AUnlock (LDir 1), None)]
+  | OFlushDir =>
+      [(ALock (LDir 0), None); (AUnlock (LDir 0), None)] ++ p_dirgetnode ++
+      [(ALock (LDir 0), Some PDirLocalUpdate); (AUnlock (LDir 0), None)]
+  | OFlushPathD =>
+      [(ALock (LDir 0), None); (AUnlock (LDir 0), None)] ++ p_dirgetnode ++
+      [(ALock (LDir 0), Some PDirLocalUpdate); (AUnlock (LDir 0), None)] ++ p_dirgetnode
   end.
 
 Definition p_thread (reentrant : bool) (t : nat) (ops : list op) : list pact :=
@@ -218,7 +234,7 @@ Definition p_thread (reentrant : bool) (t : nat) (ops : list op) : list pact :=
 
 Definition all_ops : list op :=
   flat_map (fun f => [OWrite f true; OWrite f false; ORead f; OMode f; OModTime f; OChmod f; OTouch f; OSize f; OFlushFile f])
-           [0; 1] ++ [OListD].
+           [0; 1] ++ [OListD; OFlushDir; OFlushPathD].
 
 (** ---------- correspondence ---------- *)
 
@@ -226,18 +242,28 @@ Definition all_ops : list op :=
 Definition points_of (p : list pact) : list point :=
   flat_map (fun a => match snd a with Some x => [x] | None => [] end) p.
 
-Fixpoint prefix_points (obs model : list point) : bool :=
-  match obs, model with
-  | [], _ => true
-  | a :: r, b :: r' => point_eqb a b && prefix_points r r'
-  | _ :: _, [] => false
+Definition is_dir_point (p : point) : bool :=
+  match p with PDirGetNode | PDirLocalUpdate => true | _ => false end.
+
+(** [obs] against the model's points: a [PGetNodeRLockOpt] of the model may be absent or
+    appear as [PGetNodeRLock]; with [full = false] only a prefix of the model is required *)
+Fixpoint match_points (full : bool) (obs model : list point) : bool :=
+  match model with
+  | [] => match obs with [] => true | _ => false end
+  | m :: r =>
+      match m with
+      | PGetNodeRLockOpt =>
+          match_points full obs r ||
+          match obs with PGetNodeRLock :: o' => match_points full o' r | _ => false end
+      | _ =>
+          match obs with
+          | [] => negb full
+          | a :: o' => point_eqb a m && match_points full o' r
+          end
+      end
   end.
-Fixpoint eq_points (a b : list point) : bool :=
-  match a, b with
-  | [], [] => true
-  | x :: r, y :: r' => point_eqb x y && eq_points r r'
-  | _, _ => false
-  end.
+Definition eq_points (a b : list point) : bool := match_points true a b.
+Definition prefix_points (a b : list point) : bool := match_points false a b.
 
 Definition exec_held (h : list (lock * bool)) (a : act) : list (lock * bool) :=
   match a with
@@ -278,9 +304,13 @@ Fixpoint indexed {A} (i : nat) (l : list A) : list (nat * A) :=
   match l with [] => [] | x :: r => (i, x) :: indexed (S i) r end.
 
 Definition row := (nat * (list op * list point * bool))%type.
+(** the directory hooks are optional: when no directory point was observed at all the
+    code under test does not have them, and they are dropped from the model side *)
 Definition traces_match (reentrant : bool) (rows : list row) : bool :=
+  let with_dir := existsb (fun r : row => let '(_, (_, obs, _)) := r in existsb is_dir_point obs) rows in
   forallb (fun r : row => let '(t, (ops, obs, done)) := r in
-                    let m := points_of (p_thread reentrant t ops) in
+                    let m0 := points_of (p_thread reentrant t ops) in
+                    let m := if with_dir then m0 else filter (fun p => negb (is_dir_point p)) m0 in
                     if done then eq_points obs m else prefix_points obs m) rows.
 
 Definition stuck_config (rows : list row) : state :=
